@@ -991,7 +991,18 @@ static void opSimtub(Rng& r, Ctx& c)
   int drift  = r.irange(-1, 0);
   ModelSpec ms;
   auto model = genModel(r, s.ndim, s.nvar, drift, ms);
-  if (r.coin(0.2))
+  NeighSpec ns = genNeigh(r, s.ndim, r.coin(0.6));
+  std::string nd = ns.desc;
+  // Conditional simulations go to a GRID: with a point target Db, CalcSimuTurningBands::_updateData2ToTarget reads
+  // the location of target #ik from the DATA Db (dbin->getSampleCoordinatesInPlace(ik, coor1)) and overwrites
+  // target #ik with the value of datum #ik whenever that datum is active - wrong whatever the selection (a C13
+  // matter, reported); it would make every masked-vs-reduced comparison differ for a reason foreign to C05.
+  Targets t = genTargets(r, s, 4, c.thorough() ? 40 : 16);
+  GridT g   = genGrid(r, s, c.thorough() ? 60 : 24);
+  bool linear = r.coin(0.2);
+  // (a field reduced to ONE point has a zero extension: the intrinsic generator then never returns, masks or not)
+  if (linear && (cond ? s.nkept() + (int)g.active.size() : (int)t.active.size()) < 3) linear = false;
+  if (linear)
   {
     // intrinsic model (linear variogram): its turning-band generator is driven by the Poisson intensity that
     // CalcSimuTurningBands::_setDensity derives from the number of points to simulate
@@ -1002,14 +1013,6 @@ static void opSimtub(Rng& r, Ctx& c)
     model->setDriftIRF(0, 0);
     ms.desc = "LINEAR+drift=0";
   }
-  NeighSpec ns = genNeigh(r, s.ndim, r.coin(0.6));
-  std::string nd = ns.desc;
-  // Conditional simulations go to a GRID: with a point target Db, CalcSimuTurningBands::_updateData2ToTarget reads
-  // the location of target #ik from the DATA Db (dbin->getSampleCoordinatesInPlace(ik, coor1)) and overwrites
-  // target #ik with the value of datum #ik whenever that datum is active - wrong whatever the selection (a C13
-  // matter, reported); it would make every masked-vs-reduced comparison differ for a reason foreign to C05.
-  Targets t = genTargets(r, s, 4, c.thorough() ? 40 : 16);
-  GridT g   = genGrid(r, s, c.thorough() ? 60 : 24);
   int nbsimu = r.irange(1, 3);
   int nbtuba = r.pick(std::vector<int> {1, 2, 3, 5, 10, 30, 100});
   int seed   = r.irange(1, 1000000);
@@ -1048,6 +1051,7 @@ static void opSimtub(Rng& r, Ctx& c)
     for (int j = 0; j < t.m; j++) if (t.masked[j]) off.push_back(j);
   }
   Key K = cond ? mkKey(kind, "", s, ns.kind == 2) : Key {"C05:" + kind + ":by=none", false};
+  if (linear && !K.collapsed) K = Key {"C05:" + kind + ":linear-model:point-count", true};
   int ncM = doutM->getColumnNumber(), ncR = doutR->getColumnNumber(), ncDin = dinM->getColumnNumber();
   std::vector<double> snapOut = snapshot(doutM.get(), ncM), snapIn = snapshot(dinM.get(), ncDin);
   auto neigh = mkNeigh(ns, false), neighR = mkNeigh(ns, false);
